@@ -9,10 +9,12 @@ list() {
       *_r2?) echo "$d/patch.diff /tmp/seed2facts/${n%_r2?}_${n: -1}";;
       *_r3?) echo "$d/patch.diff /tmp/seed3facts/${n%_r3?}_${n: -1}";;
       *_r4?) echo "$d/patch.diff /tmp/seed4facts/${n%_r4?}_${n: -1}";;
+      *_r5?) echo "$d/patch.diff /tmp/seed5facts/${n%_r5?}_${n: -1}";;
       *) echo "$d/patch.diff /tmp/seedfacts/$n";;
     esac
   done
   for d in /verif/mutants/RM_*/; do n=$(basename $d); echo "$d/patch.diff /tmp/combofacts/m${n#RM_}"; done
+  for d in /verif/mutants/[FM][0-9]*/; do n=$(basename $d); echo "$d/patch.diff /tmp/mutfacts/$n"; done
   for d in /verif/refactors/*/; do n=$(basename $d)
     case $n in
       r2_*) echo "$d/patch.diff /tmp/refac2facts/${n#r2_}";;
@@ -30,5 +32,5 @@ one() { # one <patch|-> <facts dir>
   [ -f "$OUT/.done" ] || echo "FAILED $OUT"
 }
 export -f one
-mkdir -p /tmp/fix4facts /tmp/seedfacts /tmp/seed2facts /tmp/seed3facts /tmp/seed4facts /tmp/combofacts /tmp/refacfacts /tmp/refac2facts /tmp/fix3facts /tmp/refac4facts
+mkdir -p /tmp/seed5facts /tmp/mutfacts /tmp/fix4facts /tmp/seedfacts /tmp/seed2facts /tmp/seed3facts /tmp/seed4facts /tmp/combofacts /tmp/refacfacts /tmp/refac2facts /tmp/fix3facts /tmp/refac4facts
 list | xargs -P $J -L 1 bash -c 'one "$0" "$1"'
